@@ -3,6 +3,7 @@ package main
 import (
 	"fmt"
 	"go/token"
+	"go/types"
 	"sort"
 	"strings"
 
@@ -298,6 +299,103 @@ var lockOrderPkgs = map[string][]string{
 	"C17": {"p2p/protocol/identify"},
 	"C18": {"p2p/transport/webtransport"},
 	"C20": {"p2p/net/swarm"},
+}
+
+// ignoredGuardResults: the functions whose results the property's rules use as guards (recorded while the rules
+// were built) are decision procedures: an error or boolean they return says "reject". The rules check the sites
+// they name; this audit covers every other call site in the packages the property is anchored in: a call that
+// throws the tested result away and can still reach a successful exit is a violation unless tabled with its reason.
+var ignoredOK = map[string]string{
+	// site (function key) → callee key : reason
+	"(*p2p/host/peerstore/pstoreds.dsAddrBook).deleteAddrs → (*p2p/host/peerstore/pstoreds.addrsRecord).clean":                       "clean()'s boolean says whether anything expired; the record is flushed unconditionally right after",
+	"(*p2p/host/peerstore/pstoreds.dsAddrBook).setAddrs → (*p2p/host/peerstore/pstoreds.addrsRecord).clean":                          "clean()'s boolean says whether anything expired; the record is flushed unconditionally right after",
+	"(*p2p/host/peerstore/pstoreds.dsKeyBook).RemovePeer → (github.com/ipfs/go-datastore.Write).Delete":                              "key book, not the address book: best-effort removal of keys (the interface method has no error result)",
+	"(*p2p/host/peerstore/pstoreds.dsPeerMetadata).RemovePeer → (github.com/ipfs/go-datastore.Write).Delete":                         "metadata book, not the address book: best-effort removal (the interface method has no error result)",
+	"(*p2p/http/auth.ServerPeerIDAuth).ServeHTTPWithNextHandler → (*p2p/http/auth/internal/handshake.PeerIDAuthHandshakeServer).Run": "the re-run on a fresh handshake with no header only mints a new challenge (state ChallengeClient); the 401 answer carries no identity and next() is not called on that path (C19-R5)",
+}
+
+func ignoredGuardResults(c *Ctx, ru *Rule, prop string) {
+	keys := make([]string, 0, len(guardCallees))
+	for k := range guardCallees {
+		if k != "" {
+			keys = append(keys, k)
+		}
+	}
+	sort.Strings(keys)
+	inScope := map[string]bool{}
+	for _, d := range anchorPkgs[prop] {
+		inScope[Mod+d] = true
+	}
+	nSites := 0
+	for _, f := range c.Fns {
+		if f.Pkg == nil || !inScope[f.Pkg.Pkg.Path()] {
+			continue
+		}
+		f := f
+		allInstrs(f, func(in ssa.Instruction) {
+			ci, ok := in.(ssa.CallInstruction)
+			if !ok {
+				return
+			}
+			for _, k := range keys {
+				if !isCallTo(in, k) {
+					continue
+				}
+				nSites++
+				for idx := range guardCallees[k] {
+					used := false
+					if x, isCall := in.(*ssa.Call); isCall {
+						nres := 1
+						if t, ok := x.Type().(*types.Tuple); ok {
+							nres = t.Len()
+						}
+						for _, r := range *x.Referrers() {
+							if _, dbg := r.(*ssa.DebugRef); dbg {
+								continue
+							}
+							if nres == 1 {
+								used = true
+							} else if ex, ok := r.(*ssa.Extract); ok && (idx < 0 || ex.Index == idx) {
+								for _, r2 := range *ex.Referrers() {
+									if _, dbg := r2.(*ssa.DebugRef); !dbg {
+										used = true
+									}
+								}
+							}
+						}
+					} // go / defer: results are discarded
+					if used {
+						continue
+					}
+					site := fnKey(f) + " → " + calleeKey(ci)
+					key := fmt.Sprintf("%s: result #%d of %s is examined", fnKey(f), idx, calleeKey(ci))
+					// harmless when nothing but failing exits follows (a value computed for an error message)
+					if errResultIndex(f) >= 0 {
+						w, _ := (&Cut{Fn: f, From: []ssa.Instruction{in}, Target: func(t ssa.Instruction) bool {
+							r, isRet := t.(*ssa.Return)
+							return isRet && isSuccessReturn(r)
+						}}).Run(c)
+						if w == "" {
+							ru.OK(key, instrPos(in), 1, "discarded, but only failing exits follow")
+							continue
+						}
+					}
+					if why, ok := ignoredOK[site]; ok {
+						ru.OK(key, instrPos(in), 1, "tabled: "+why)
+						continue
+					}
+					ru.Fail(key, instrPos(in), "a result that the property's rules treat as the accept/reject decision is thrown away at this call", calleeKey(ci))
+				}
+			}
+		})
+	}
+	ru.OK("call sites of guard functions audited", token.NoPos, nSites, fmt.Sprintf("%d guard functions, packages %v", len(keys), anchorPkgs[prop]))
+}
+
+// auditExtras: run in both tiers after the property's own rules.
+func auditExtras(c *Ctx, rep *Report) {
+	ru := rep.Rule(rep.Prop+"-A1", "E3", 0, "audit: no call site in the packages the property is anchored in discards a result that this property's rules use as a guard (unless only failing exits follow, or tabled with a reason)")
+	ignoredGuardResults(c, ru, rep.Prop)
 }
 
 func thoroughExtras(c *Ctx, rep *Report) {
